@@ -458,3 +458,33 @@ def run(index, rep, tier):
                 ok = "self._tree_leafset_bitmask & $m" in ds and "other._leafset_bitmask" in ds
         rep.check(ok, "R01.6", fi.qualname, "nesting test: " + (norm(ret[0].value) if ret else "?"), fn_where(fi), "leafset nesting: (other.leafset & tree leafset) & self.leafset == self.leafset",
                   "is_leafset_nested_within no longer tests (m2 & self._leafset_bitmask) == self._leafset_bitmask on the other's LEAFSET mask restricted to this tree's leaf set")
+
+    # ---- R01.15 a tree built from splits carries an encoding that matches its edges
+    with rep.section("R01.15"):
+        rep.rule("R01.15", "a tree built from splits carries an encoding that matches its edges: in Tree.from_split_bitmasks every path from a structural change (add_child / remove_child / new_child) to the return passes a statement that re-derives `bipartition_encoding` from the tree's edges (an assignment from an edge traversal, encode_bipartitions / update_bipartitions) or drops it (None) - entries appended while a node is being assembled describe partial unions of children that are the split of no edge, and callers that trust the stored encoding (is_bipartitions_updated=True) compare against splits the tree does not have")
+        fs = index.function(TREE + ".from_split_bitmasks")
+        g = cfg_of(fs)
+
+        def structural(n):
+            return any(call_name(c) in ("add_child", "remove_child", "new_child", "insert_child") for c in node_calls(n))
+
+        def resync(n):
+            a = n.ast
+            if any(call_name(c) in ("encode_bipartitions", "update_bipartitions") for c in node_calls(n)):
+                return True
+            if isinstance(a, ast.Assign) and any(isinstance(t, ast.Attribute) and t.attr == "bipartition_encoding" for t in a.targets):
+                v = a.value
+                if is_none(v):
+                    return True
+                return any(isinstance(c, ast.Call) and call_name(c).endswith("edge_iter") for c in ast.walk(v)) or any(isinstance(x, ast.Attribute) and x.attr == "bipartition" for x in ast.walk(v)) and isinstance(v, (ast.ListComp, ast.Call))
+            return False
+        muts = [n for n in g.nodes if structural(n)]
+        if len(muts) < 3:
+            raise AnalysisError("R01.15: the node surgery of from_split_bitmasks was not recognised")
+        bad = None
+        for mnode in muts:
+            ok, w = g.must_pass(mnode, resync)
+            if not ok:
+                bad = mnode
+        rep.check(bad is None, "R01.15", fs.qualname, "stored encoding not re-derived after the tree was assembled", fn_where(fs, bad.ast if bad is not None else None), "from_split_bitmasks re-derives the encoding after the last structural change",
+                  "Tree.from_split_bitmasks returns after `%s` without re-deriving `bipartition_encoding` from the finished tree: the list it carries was filled while nodes were being assembled (one entry per child folded in, leaf and root entries dropped), so it contains splits of no edge and lacks splits the tree has - symmetric_difference(t, rebuilt, is_bipartitions_updated=True) is non-zero for identical trees" % (norm_stmt(bad.stmt)[:60] if bad is not None else ""))
